@@ -57,7 +57,10 @@ def profile_residuals(zs, low, high, widths, offsets, fields, dphidz, idx):
             ef = abs(float(mp.mpf(float(fields[k][i])) - ph))
             rf = ef / tol_f
             d_ref = float(dph)
-            tol_d = (16 + 8 * x) * EPS * abs(d_ref) + 5e-324 * 16
+            # |x| > 355: cosh(x)^2 overflows and the code returns 0 where the exact value is a
+            # denormal ~1e-308 |dphi|/L; that underflow is admitted by the absolute floor
+            tol_d = (16 + 8 * x) * EPS * abs(d_ref) + 5e-324 * 16 \
+                + 1e-290 * abs(high[i] - low[i]) / abs(widths[i])
             ed = abs(float(mp.mpf(float(dphidz[k][i])) - dph))
             if not np.isfinite(fields[k][i]):
                 rf = math.inf
